@@ -97,3 +97,12 @@ Theorem C10_pad_over_huge_skip : forall l c c' k, (length l <= c)%nat -> (length
   forall n, Signalo.Spec.C10.sem (Sources.EPadEdge (Sources.ESkip (Sources.EList l) c) k) n = Signalo.Spec.C10.sem (Sources.EPadEdge (Sources.ESkip (Sources.EList l) c') k) n.
 Proof. exact Signalo.Proofs.Bridge.bridge_c10_pad_over_skip_short. Qed.
 Print Assumptions C10_pad_over_huge_skip.
+
+(* No false alarm: the boolean reading of this property that the correspondence check evaluates on the IMPLEMENTATION's
+   outputs (Check/C10.v, verdict bit 2) can never fail on outputs that agree with the model (bit 1 clear); side conditions,
+   where there are any, are boolean and say which recorded observations the model comparison does not cover. *)
+From Coq Require Import NArith.
+From Signalo Require Base.Report Check.C10 Proofs.Sound_C10.
+Theorem C10_checker_no_false_alarm : forall c : Signalo.Check.C10.case, N.land (Signalo.Base.Report.code (Signalo.Check.C10.check c)) 3 <> 2%N.
+Proof. exact Signalo.Proofs.Sound_C10.C10_check_sound. Qed.
+Print Assumptions C10_checker_no_false_alarm.
